@@ -147,7 +147,10 @@ def _build(fmt, rs, A, dt, rdt, kind):
         if w is not None:
             w = w.astype(rdt)
         wrapper = rs.rand() < 0.5
-        mask = (rs.uniform(size=shp) < 0.6).astype(rdt) if (order >= 2 and rs.rand() < 0.3) else None
+        mask = (rs.uniform(size=shp) < 0.6).astype(rdt) if rs.rand() < 0.3 else None     # any order, order 1 included
+        if mask is not None and rs.rand() < 0.4:
+            # observation weights rather than 0/1: "applied entrywise" is a plain product, whatever the values
+            mask = (mask * rs.uniform(-1, 2, size=shp)).astype(rdt)
         cls = ("order1" if order == 1 else "orderN") + ("+noweights" if w is None else "")
         desc = {"fmt": "cp", "shape": shp, "rank": R, "weights": wk, "wrapper": bool(wrapper), "mask": mask is not None, "cls": cls}
         dense, absb, nt = ref.cp_dense(w, factors)
@@ -169,6 +172,28 @@ def _build(fmt, rs, A, dt, rdt, kind):
                 okm, worst = tol.formula_close(out, mv, ma, eps, nt)
                 if not okm:
                     ctx.violation("C03:cp:masked-dense:%s" % cls, "cp_to_tensor(mask=) is not the entrywise-masked tensor (err/bound %.3g)" % worst, {"desc": desc, "backend": be})
+            if wrapper and be == "core" and order >= 2:
+                # history: the object is grown in place (greedy rank-one updates, a mode re-sampled): factors, then weights, replaced by
+                # item assignment. Everything it reports and every view follows what it holds now.
+                r2 = R + 1
+                shp2 = list(shp)
+                shp2[0] = shp[0] + 1
+                rs2 = np.random.RandomState(sum(shp) * 17 + R)
+                f2 = [gen.arr(rs2, [s_, r2], dt) for s_ in shp2]
+                w2 = gen.arr(rs2, [r2], rdt)
+                obj2 = L["CPTensor"]((w, list(factors)))
+                obj2[1] = list(f2)
+                obj2[0] = w2
+                d2, a2, n2 = ref.cp_dense(w2, f2)
+                ctx.count("clause/parts-replaced")
+                if tuple(obj2.shape) != tuple(shp2) or obj2.rank != r2:
+                    ctx.violation("C03:cp:wrapper-shape-rank:parts-replaced", "CPTensor after its factors and weights were replaced by item assignment (shape %s rank %d -> %s, %d) reports shape %s rank %s" % (
+                        shp, R, shp2, r2, tuple(obj2.shape), obj2.rank), dict(desc, cls="parts-replaced"))
+                else:
+                    try:
+                        _views(ctx, "cp", be, dict(desc, cls="parts-replaced"), d2, a2, n2, eps, obj2.to_tensor, obj2.to_unfolded, obj2.to_vec)
+                    except (ValueError, IndexError) as e:
+                        ctx.violation("C03:cp:raises-%s:parts-replaced" % type(e).__name__, "CPTensor with replaced factors and weights: a view raised %s: %s" % (type(e).__name__, str(e)[:150]), dict(desc, cls="parts-replaced"))
             # norm from the factors vs norm of the dense reconstruction, compared on squares
             nrm = obj.norm() if wrapper else L["cp_norm"](obj)
             ctx.count("clause/norm")
@@ -212,6 +237,26 @@ def _build(fmt, rs, A, dt, rdt, kind):
                 fns = (lambda: L["tucker_to_tensor"](obj), lambda m: L["tucker_to_unfolded"](obj, m), lambda: L["tucker_to_vec"](obj))
             _views(ctx, "tucker", be, desc, dense, absb, nt, eps, *fns)
             _norm_clause(ctx, "tucker", be, desc, obj, dense, absb, nt, eps)
+            if wrapper and be == "core":
+                # history: factors, then core, replaced by item assignment (a mode re-sampled, a rank grown)
+                rs2 = np.random.RandomState(sum(shp) * 13 + sum(rk))
+                shp2, rk2 = list(shp), list(rk)
+                shp2[0], rk2[-1] = shp[0] + 1, rk[-1] + 1
+                f2 = [gen.arr(rs2, [s_, r_], dt) for s_, r_ in zip(shp2, rk2)]
+                c2 = gen.arr(rs2, rk2, dt)
+                obj2 = L["TuckerTensor"]((core, list(factors)))
+                obj2[1] = list(f2)
+                obj2[0] = c2
+                d2, a2, n2 = ref.tucker_dense(c2, f2)
+                ctx.count("clause/parts-replaced")
+                if tuple(obj2.shape) != tuple(shp2) or tuple(obj2.rank) != tuple(rk2):
+                    ctx.violation("C03:tucker:wrapper-shape-rank:parts-replaced", "TuckerTensor after its factors and core were replaced by item assignment (shape %s rank %s -> %s, %s) reports shape %s rank %s" % (
+                        shp, rk, shp2, rk2, tuple(obj2.shape), tuple(obj2.rank)), dict(desc, cls="parts-replaced"))
+                else:
+                    try:
+                        _views(ctx, "tucker", be, dict(desc, cls="parts-replaced"), d2, a2, n2, eps, obj2.to_tensor, obj2.to_unfolded, obj2.to_vec)
+                    except (ValueError, IndexError) as e:
+                        ctx.violation("C03:tucker:raises-%s:parts-replaced" % type(e).__name__, "TuckerTensor with replaced factors and core: a view raised %s: %s" % (type(e).__name__, str(e)[:150]), dict(desc, cls="parts-replaced"))
             if skip is not None:
                 keep = [i for i in range(order) if i != skip]
                 sv, sa, snt = ref.tucker_dense(core, [factors[i] for i in keep], keep)
@@ -397,7 +442,7 @@ def _invalid(ctx, rs, A, tl, tenalg):
     from tensorly.tt_matrix import TTMatrix, tt_matrix_to_tensor
     from tensorly import parafac2_tensor as p2
 
-    which = gen.choice(rs, ["cp-columns", "cp-weights", "cp-weights-2d", "tucker-cols", "tucker-count", "tt-boundary0", "tt-boundaryN", "tt-consecutive",
+    which = gen.choice(rs, ["cp-columns", "cp-columns-one", "cp-weights", "cp-weights-one", "cp-weights-2d", "tucker-cols", "tucker-count", "tt-boundary0", "tt-boundaryN", "tt-consecutive",
                             "tr-ring", "tr-consecutive", "ttm-boundary", "ttm-consecutive", "p2-count", "p2-width", "p2-nonorth", "p2-factor-cols"])
     order = int(rs.randint(3, 5))
     shp = gen.shape(rs, order, 2, 4)
@@ -413,6 +458,20 @@ def _invalid(ctx, rs, A, tl, tenalg):
         k = int(rs.randint(1, order))
         f[k] = A([shp[k], R + 1])
         attempts = [("CPTensor", lambda: CPTensor((None, f))), ("cp_to_tensor", lambda: cp_to_tensor((None, f)))]
+    elif which in ("cp-columns-one", "cp-weights-one"):
+        # the mismatch that broadcasting hides: one factor with a single column (or a single weight) in a rank-R set; every entry point
+        # has to reject it, also the ones that never multiply that factor with the others (the unfolding along its own mode)
+        R = max(R, 2)
+        f = [A([s, R]) for s in shp]
+        k = int(rs.randint(order))
+        w = None
+        if which == "cp-columns-one":
+            f[k] = A([shp[k], 1])
+        else:
+            w = A([1], "float64", "gauss")
+        import tensorly.cp_tensor as _cpm
+        attempts = [("CPTensor", lambda: CPTensor((w, f))), ("cp_to_tensor", lambda: cp_to_tensor((w, f))), ("cp_to_vec", lambda: _cpm.cp_to_vec((w, f)))] + [
+            ("cp_to_unfolded", (lambda m_: (lambda: _cpm.cp_to_unfolded((w, f), m_)))(m_)) for m_ in range(order)]
     elif which == "cp-weights":
         f = [A([s, R]) for s in shp]
         w = A([R + 1], "float64", "gauss")
